@@ -1,2 +1,328 @@
+"""effects — tie A: tables extracted from the class / module sources by AST analysis (the package is never imported).
+
+Emits <outdir>/Effects.lean with
+  * Slurry (C07): per-setter dirty flags raised; parameters read (transitively) by the grading generator and by the curve
+    generator; structure flags of generate_GSD / generate_curves / the lazy getters;
+  * lru_cache'd functions (C08): key parameters, module-level mutable names read transitively, whether the cached
+    value is a mutable container handed out to callers.
+Anything whose shape is not recognised is recorded as such (the corresponding adequacy theorem then fails to check:
+a broken tie, handled by the verdict rules)."""
+import ast
+import json
+import os
+
+PARAM_OF_ATTR = {'Dp': 'Dp', '_Dp': 'Dp', 'epsilon': 'epsilon', '_epsilon': 'epsilon', 'fluid': 'fluid', '_fluid': 'fluid',
+                 'nu': 'fluid', 'rhol': 'fluid', 'D50': 'D50', '_D50': 'D50', 'Cv': 'Cv', '_Cv': 'Cv', 'rhos': 'rhos',
+                 '_rhos': 'rhos', 'max_index': 'max_index', '_max_index': 'max_index', 'rhoi': 'rhoi'}
+FLAGS = {'GSD_curves_dirty': 'gsd', 'curves_dirty': 'curves'}
+CURVE_FIELDS = ['_vls_list', '_Erhg_curves', '_im_curves', '_LDV_curves', '_LDV85_curves']
+
+
+def self_attr(node):
+    return isinstance(node, ast.Attribute) and isinstance(node.value, ast.Name) and node.value.id == 'self'
+
+
+class SlurryFx:
+    def __init__(self, src):
+        tree = ast.parse(src)
+        self.cls = next(n for n in tree.body if isinstance(n, ast.ClassDef) and n.name == 'Slurry')
+        self.methods = {}
+        self.getters = {}
+        self.setters = {}
+        for n in self.cls.body:
+            if isinstance(n, ast.FunctionDef):
+                decos = [ast.unparse(d) for d in n.decorator_list]
+                if 'property' in decos:
+                    self.getters[n.name] = n
+                elif any(d.endswith('.setter') for d in decos):
+                    self.setters[n.name] = n
+                else:
+                    self.methods[n.name] = n
+
+    def flags_raised(self, fn, seen=None):
+        """flags set to True by `fn` (transitively through assignments to other properties with setters)"""
+        seen = seen or set()
+        out = set()
+        for x in ast.walk(fn):
+            if isinstance(x, ast.Assign):
+                for t in x.targets:
+                    if self_attr(t):
+                        if t.attr in FLAGS and isinstance(x.value, ast.Constant) and x.value.value is True:
+                            out.add(FLAGS[t.attr])
+                        elif t.attr in self.setters and t.attr not in seen:
+                            out |= self.flags_raised(self.setters[t.attr], seen | {t.attr})
+        return out
+
+    def params_written(self, fn, seen=None):
+        seen = seen or set()
+        out = set()
+        for x in ast.walk(fn):
+            if isinstance(x, ast.Assign):
+                for t in x.targets:
+                    if self_attr(t) and t.attr in PARAM_OF_ATTR:
+                        if t.attr in self.setters and t.attr not in seen and self.setters[t.attr] is not fn:
+                            out |= self.params_written(self.setters[t.attr], seen | {t.attr})
+                        else:
+                            out.add(PARAM_OF_ATTR[t.attr])
+        return out
+
+    def reads(self, fn, seen=None, stop_at=()):
+        """parameters read by `fn`, transitively through self.method() calls and property reads; artefact reads
+        ('GSD', curve fields) are returned as pseudo-parameters '@gsd' / '@curves'."""
+        seen = set() if seen is None else seen
+        out = set()
+        for x in ast.walk(fn):
+            if self_attr(x) and isinstance(x.ctx, ast.Load):
+                a = x.attr
+                if a in ('GSD', '_GSD'):
+                    out.add('@gsd')
+                elif a in CURVE_FIELDS or a in ('vls_list', 'Erhg_curves', 'im_curves', 'LDV_curves', 'LDV85_curves'):
+                    out.add('@curves')
+                elif a in PARAM_OF_ATTR:
+                    out.add(PARAM_OF_ATTR[a])
+                elif a in self.getters and a not in seen and a not in stop_at:
+                    seen.add(a)
+                    out |= self.reads(self.getters[a], seen, stop_at)
+                elif a in self.methods and a not in seen and a not in stop_at:
+                    seen.add(a)
+                    out |= self.reads(self.methods[a], seen, stop_at)
+        return out
+
+    @staticmethod
+    def first_stmts(fn):
+        return [s for s in fn.body if not (isinstance(s, ast.Expr) and isinstance(s.value, ast.Constant))]
+
+    def extract(self):
+        fx = {}
+        raises = {}
+        for name, fn in self.setters.items():
+            ps = self.params_written(fn)
+            for p in ps:
+                raises.setdefault(p, set())
+                raises[p] |= self.flags_raised(fn)
+            fx.setdefault('setter_params', {})[name] = sorted(ps)
+        fx['raises'] = {p: sorted(v) for p, v in sorted(raises.items())}
+        g = self.methods['generate_GSD']
+        gs = self.first_stmts(g)
+        # structure of generate_GSD: clears its flag first, raises the curves flag, rebuilds from create_fracs
+        fx['gsd_clears_flag_first'] = (isinstance(gs[0], ast.Assign) and self_attr(gs[0].targets[0])
+                                        and gs[0].targets[0].attr == 'GSD_curves_dirty' and isinstance(gs[0].value, ast.Constant)
+                                        and gs[0].value.value is False)
+        fx['gsd_raises_curves'] = any(isinstance(s, ast.Assign) and self_attr(s.targets[0]) and s.targets[0].attr == 'curves_dirty'
+                                      and isinstance(s.value, ast.Constant) and s.value.value is True for s in gs)
+        rebinding = [s for s in gs if isinstance(s, ast.Assign) and self_attr(s.targets[0]) and s.targets[0].attr == '_GSD']
+        fx['gsd_rebinds_fresh_dict'] = (len(rebinding) == 1 and isinstance(rebinding[0].value, ast.Call)
+                                         and ast.unparse(rebinding[0].value.func).endswith('create_fracs'))
+        mutating = [x for x in ast.walk(g) if isinstance(x, ast.Call) and isinstance(x.func, ast.Attribute)
+                    and self_attr(x.func.value) and x.func.value.attr == '_GSD']
+        fx['gsd_rebinds_fresh_dict'] = fx['gsd_rebinds_fresh_dict'] and not mutating
+        fx['reads_gsd'] = sorted(p for p in self.reads(g, stop_at=('get_dx', 'GSD')) if not p.startswith('@'))
+        c = self.methods['generate_curves']
+        cs = self.first_stmts(c)
+        checks = (isinstance(cs[0], ast.If) and ast.unparse(cs[0].test) == 'self.GSD_curves_dirty'
+                  and ast.unparse(cs[0].body[0]) == 'self.generate_GSD()')
+        fx['curves_checks_gsd'] = bool(checks)
+        clears = [i for i, s in enumerate(cs) if isinstance(s, ast.Assign) and self_attr(s.targets[0])
+                  and s.targets[0].attr == 'curves_dirty' and isinstance(s.value, ast.Constant) and s.value.value is False]
+        assigned = [s.targets[0].attr for s in cs if isinstance(s, ast.Assign) and self_attr(s.targets[0])]
+        fx['curves_regenerates_all_unconditionally'] = bool(clears) and all(f in assigned for f in CURVE_FIELDS) and \
+            not any(isinstance(s, (ast.If, ast.Try, ast.While, ast.For)) for s in cs[1:])
+        rc = self.reads(c, stop_at=('generate_GSD',))
+        fx['curves_read_gsd'] = '@gsd' in rc
+        fx['reads_curves'] = sorted(p for p in rc if not p.startswith('@'))
+        # lazy getters
+        ok = True
+        for name in ('vls_list', 'Erhg_curves', 'im_curves', 'LDV_curves', 'LDV85_curves'):
+            st = self.first_stmts(self.getters[name])
+            field = '_' + name
+            want = f'self.curves_dirty or self.{field} is None'
+            ok = ok and isinstance(st[0], ast.If) and ast.unparse(st[0].test) == want \
+                and ast.unparse(st[0].body[0]) == 'self.generate_curves()' and ast.unparse(st[-1]) == f'return self.{field}'
+        st = self.first_stmts(self.getters['GSD'])
+        ok = ok and isinstance(st[0], ast.If) and ast.unparse(st[0].test) == 'self.GSD_curves_dirty' \
+            and ast.unparse(st[0].body[0]) == 'self.generate_GSD()' and ast.unparse(st[-1]) == 'return self._GSD'
+        st = self.first_stmts(self.methods['get_dx'])
+        ok = ok and isinstance(st[0], ast.If) and ast.unparse(st[0].test) == 'self.GSD_curves_dirty'
+        fx['getters_guarded'] = bool(ok)
+        # pointwise methods read the grading through the guarded getter, never the raw field
+        pw = True
+        for name in ('Erhg', 'im', 'il', 'generate_Erhg_curves', 'generate_im_curves', 'generate_LDV_curves'):
+            for x in ast.walk(self.methods[name]):
+                if self_attr(x) and x.attr in ('_GSD',) + tuple(CURVE_FIELDS):
+                    pw = False
+        fx['pointwise_use_guarded_getters'] = pw
+        return fx
+
+
+def cache_effects(repo):
+    """lru_cache'd functions of the model modules: key params, switch reads (transitive), mutable result handed out."""
+    mods = {'framework': 'src/DHLLDV/DHLLDV_framework.py', 'homogeneous': 'src/DHLLDV/homogeneous.py',
+            'heterogeneous': 'src/DHLLDV/heterogeneous.py', 'stratified': 'src/DHLLDV/stratified.py',
+            'wilson_stratified': 'src/Wilson/Wilson_Stratified.py', 'wilson_v50': 'src/Wilson/Wilson_V50.py'}
+    alias_mod = {'homogeneous': 'homogeneous', 'heterogeneous': 'heterogeneous', 'stratified': 'stratified'}
+    trees = {k: ast.parse(open(os.path.join(repo, p)).read()) for k, p in mods.items()}
+    funcs, mut_globals, module_state = {}, {}, {}
+    for mk, t in trees.items():
+        mut_globals[mk] = set()
+        module_state[mk] = []
+        for n in t.body:
+            if isinstance(n, ast.FunctionDef):
+                funcs[(mk, n.name)] = n
+            elif isinstance(n, ast.Assign) and isinstance(n.targets[0], ast.Name):
+                v = n.value
+                if isinstance(v, ast.Constant) and isinstance(v.value, bool):
+                    mut_globals[mk].add(n.targets[0].id)      # documented switches (rebindable module attributes)
+                elif isinstance(v, (ast.Dict, ast.List, ast.Set)) or (isinstance(v, ast.Call) and isinstance(v.func, ast.Name)
+                                                                      and v.func.id in ('dict', 'list', 'set', 'defaultdict')):
+                    module_state[mk].append(n.targets[0].id)  # hidden module-level mutable state
+    from_imports = {}
+    for mk, t in trees.items():
+        for n in t.body:
+            if isinstance(n, ast.ImportFrom):
+                for a in n.names:
+                    m = (n.module or '').split('.')[-1]
+                    for k2 in mods:
+                        if mods[k2].endswith('/' + m + '.py') and (k2, a.name) in funcs:
+                            from_imports[(mk, a.asname or a.name)] = (k2, a.name)
+
+    def callees(q):
+        mk, _ = q
+        out = set()
+        for x in ast.walk(funcs[q]):
+            if isinstance(x, ast.Call):
+                f = x.func
+                if isinstance(f, ast.Name):
+                    if (mk, f.id) in funcs:
+                        out.add((mk, f.id))
+                    elif (mk, f.id) in from_imports:
+                        out.add(from_imports[(mk, f.id)])
+                elif isinstance(f, ast.Attribute) and isinstance(f.value, ast.Name) and f.value.id in alias_mod \
+                        and (alias_mod[f.value.id], f.attr) in funcs:
+                    out.add((alias_mod[f.value.id], f.attr))
+        return out
+
+    def direct_reads(q):
+        mk, _ = q
+        fn = funcs[q]
+        params = {a.arg for a in fn.args.args}
+        local = {t.id for x in ast.walk(fn) if isinstance(x, ast.Assign) for t in x.targets if isinstance(t, ast.Name)}
+        r = set()
+        for x in ast.walk(fn):
+            if isinstance(x, ast.Name) and isinstance(x.ctx, ast.Load) and x.id not in params and x.id not in local:
+                if x.id in mut_globals[mk]:
+                    r.add(x.id)
+                if x.id in module_state[mk]:
+                    r.add('@state:' + x.id)
+            if isinstance(x, (ast.Global, ast.Nonlocal)):
+                r.add('@global-stmt')
+        return r
+    reads = {q: direct_reads(q) for q in funcs}
+    changed = True
+    while changed:
+        changed = False
+        for q in funcs:
+            for c in callees(q):
+                # a value passed explicitly as argument is part of the callee's arguments; only *global* reads propagate
+                new = reads[c] - reads[q]
+                if new:
+                    reads[q] |= new
+                    changed = True
+    out = []
+    for q, fn in sorted(funcs.items()):
+        cached = any('lru_cache' in ast.unparse(d) for d in fn.decorator_list)
+        rets = [x.value for x in ast.walk(fn) if isinstance(x, ast.Return) and x.value is not None]
+        mutable = False
+        for r in rets:
+            if isinstance(r, (ast.Dict, ast.List, ast.Set)):
+                mutable = True
+            if isinstance(r, ast.Name):
+                for x in ast.walk(fn):
+                    if isinstance(x, ast.Assign) and any(isinstance(t, ast.Name) and t.id == r.id for t in x.targets):
+                        v = x.value
+                        if isinstance(v, (ast.Dict, ast.List, ast.Set)):
+                            mutable = True
+                        if isinstance(v, ast.Call) and any(k.arg == 'get_dict' and isinstance(k.value, ast.Constant) and k.value.value
+                                                            for k in v.keywords):
+                            mutable = True
+        # a non-cached wrapper that returns the cached container itself (not a copy) also hands it out
+        params = [a.arg for a in fn.args.args]
+        out.append({'mod': q[0], 'name': q[1], 'cached': cached, 'key': params, 'reads': sorted(reads[q]),
+                    'mutable_result': mutable})
+    # module-level names read by a cached function are harmless if every call site passes their *current* value in a key
+    # parameter (only possible to establish for private functions, whose call sites are all in the package)
+    for o in out:
+        o['uncovered_reads'] = list(o['reads'])
+        if not o['cached'] or not o['reads']:
+            if not o['cached']:
+                o['uncovered_reads'] = []
+            continue
+        if not o['name'].startswith('_'):
+            continue
+        sites = []
+        for q, fn in funcs.items():
+            for x in ast.walk(fn):
+                if isinstance(x, ast.Call) and isinstance(x.func, ast.Name) and x.func.id == o['name'] and q[0] == o['mod']:
+                    sites.append((q, x))
+        if not sites:
+            continue
+        covered = set(o['reads'])
+        for q, call in sites:
+            passed = {a.id for a in call.args if isinstance(a, ast.Name)} | {k.value.id for k in call.keywords if isinstance(k.value, ast.Name)}
+            # the passing function must not rebind the name locally
+            fnq = funcs[q]
+            local = {t.id for x in ast.walk(fnq) if isinstance(x, ast.Assign) for t in x.targets if isinstance(t, ast.Name)} | {a.arg for a in fnq.args.args}
+            covered &= {g for g in passed if g not in local}
+        o['uncovered_reads'] = sorted(set(o['reads']) - covered)
+    # which public functions hand out a cached container without copying it
+    by = {(o['mod'], o['name']): o for o in out}
+    for o in out:
+        o['hands_out_cached_container'] = False
+        fn = funcs[(o['mod'], o['name'])]
+        if o['cached'] and o['mutable_result'] and not o['name'].startswith('_'):
+            o['hands_out_cached_container'] = True
+        for x in ast.walk(fn):
+            if isinstance(x, ast.Return) and isinstance(x.value, ast.Name):
+                # returns a variable bound to a call of a cached mutable-result function, uncopied
+                for y in ast.walk(fn):
+                    if isinstance(y, ast.Assign) and isinstance(y.value, ast.Call) and any(
+                            isinstance(t, ast.Name) and t.id == x.value.id for t in y.targets):
+                        cal = y.value.func
+                        nm = cal.id if isinstance(cal, ast.Name) else None
+                        tgt = by.get((o['mod'], nm))
+                        if tgt and tgt['cached'] and tgt['mutable_result']:
+                            o['hands_out_cached_container'] = True
+    return out, {k: v for k, v in module_state.items() if v}
+
+
+def lean_str_list(xs):
+    return '[' + ', '.join(json.dumps(x) for x in xs) + ']'
+
+
 def main(repo, outdir):
-    print('effects: nothing to extract yet')
+    fx = SlurryFx(open(os.path.join(repo, 'src/DHLLDV/SlurryObj.py')).read()).extract()
+    caches, module_state = cache_effects(repo)
+    lines = ['/-! GENERATED by py2lean/effects: effect tables extracted from the sources (tie A) — do not edit. -/', '',
+             'namespace Effects', '']
+    lines.append('/-- per parameter: dirty flags its setter raises -/')
+    lines.append('def slurryRaises : List (String × List String) := ['
+                 + ', '.join(f'({json.dumps(p)}, {lean_str_list(v)})' for p, v in fx['raises'].items()) + ']')
+    lines.append(f'def slurryReadsGsd : List String := {lean_str_list(fx["reads_gsd"])}')
+    lines.append(f'def slurryReadsCurves : List String := {lean_str_list(fx["reads_curves"])}')
+    for k in ('gsd_clears_flag_first', 'gsd_raises_curves', 'gsd_rebinds_fresh_dict', 'curves_checks_gsd',
+              'curves_regenerates_all_unconditionally', 'curves_read_gsd', 'getters_guarded', 'pointwise_use_guarded_getters'):
+        lines.append(f'def {k} : Bool := {"true" if fx[k] else "false"}')
+    lines.append('')
+    lines.append('/-- (module.function, cached?, key parameters, module-level mutable names read transitively and not passed in the key, hands out a cached mutable container) -/')
+    lines.append('def caches : List (String × Bool × List String × List String × Bool) := [')
+    lines.append(',\n'.join(f'  ({json.dumps(c["mod"] + "." + c["name"])}, {"true" if c["cached"] else "false"}, {lean_str_list(c["key"])}, '
+                            f'{lean_str_list(c["uncovered_reads"])}, {"true" if c["hands_out_cached_container"] else "false"})' for c in caches))
+    lines.append(']')
+    lines.append(f'def hiddenModuleState : List String := {lean_str_list([m + "." + n for m, ns in sorted(module_state.items()) for n in ns])}')
+    lines.append('')
+    lines.append('end Effects')
+    text = '\n'.join(lines) + '\n'
+    path = os.path.join(outdir, 'Effects.lean')
+    if not (os.path.exists(path) and open(path).read() == text):
+        open(path, 'w').write(text)
+    json.dump({'slurry': fx, 'caches': caches, 'module_state': module_state}, open(os.path.join(outdir, 'effects.json'), 'w'), indent=1, sort_keys=True)
+    print('effects: extracted', len(fx['raises']), 'setters,', sum(1 for c in caches if c['cached']), 'cached functions')
